@@ -118,6 +118,7 @@ Section Inst.
 
   Inductive call :=
   | CSolve (n : nat) (a : list (list elt)) (b : list elt)
+  | CSolve2 (n m : nat) (a b : list (list elt))
   | CInv (n : nat) (a : list (list elt))
   | CDet (n : nat) (a : list (list elt))
   | CInvab (n m : nat) (a b : list (list elt))
@@ -148,6 +149,10 @@ Section Inst.
         let s : store FElt := fun p => match p with O => of_rows FElt a | _ => (fun i _ => of_list FElt b i) end in
         '(s', px) <- solve_at FElt n s 0 1 2 ;;
         Ok (col0 n (s' px), to_rows FElt n n (s' 0), col0 n (s' 1))
+    | CSolve2 n m a b => if negb (is_rect n n a) then Err RuntimeError else
+        let s : store FElt := fun p => match p with O => of_rows FElt a | _ => of_rows FElt b end in
+        '(s', px) <- solve2_at FElt n m s 0 1 2 ;;
+        Ok (to_rows FElt n m (s' px), to_rows FElt n n (s' 0), to_rows FElt n m (s' 1))
     | CInv n a => if negb (is_rect n n a) then Err RuntimeError else
         let s : store FElt := fun _ => of_rows FElt a in
         '(s', py) <- inv_at FElt n s 0 1 ;;
